@@ -269,7 +269,9 @@ class Dict(dict, base.Symbolic, pg_typing.CustomTyping):
     # triggering during initialization.
     self._onchange_callback = onchange_callback
     self.set_accessor_writable(accessor_writable)
-    self.seal(sealed)
+    if sealed:
+      # NOTE: members that arrive sealed stay sealed when `sealed` is False.
+      self.seal(True)
 
   @property
   def value_spec(self) -> Optional[pg_typing.Dict]:
